@@ -160,3 +160,12 @@ def run(chk):
     # E6: the N-buffer direct calls sort their packets before handing them to the same kernels the 1-buffer calls use
     from . import swaps
     swaps.rule_swaps(chk, P, 'E6', floor=8)
+
+
+_run_inner = run
+
+
+def run(chk):
+    _run_inner(chk)
+    from . import padding
+    padding.rule_sha_padding(chk, cf.PROGRAM[0] or cf.Program())
